@@ -71,10 +71,20 @@ class Ops:
       raise OutsideSubset(f'cannot coerce {v!r} to {sort}')
     if isinstance(v, SV) and v.sort is sort:
       return v
+    hooks_any = getattr(sort, 'coerce_from', None)
+    if hooks_any and isinstance(v, SV) and v.sort.name in hooks_any and not isinstance(sort, Union):
+      return hooks_any[v.sort.name](self, v)      # e.g. a plain dict value that becomes a heap object of the model
     if isinstance(v, SV) and v.sort.name == sort.name:
       return SV(sort, v.t)   # same encoding, the target model's own attributes (e.g. default_factory)
     if isinstance(v, SV) and isinstance(v.sort, Union) and not isinstance(sort, Union) and not self.spec_mode:
       return self.coerce(self.unwrap(v), sort)
+    if isinstance(v, SV) and isinstance(v.sort, Union) and not isinstance(sort, Union) and self.spec_mode:
+      # under a binder there is no forking: read the payload of the one constructor that wraps this sort
+      # (for a value built by another constructor the accessor is unconstrained, so nothing false is assumed)
+      owners = [c for c in v.sort.ctors.values() if c.payload is not None and v.sort.field_sort(c.name, c.payload).name == sort.name]
+      if len(owners) == 1:
+        c = owners[0]
+        return SV(sort, v.sort.acc(c.name, c.payload, v.t))
     if v is NONEV and getattr(sort, 'nullable', False) and hasattr(sort, 'literal') and not isinstance(sort, Opaque):
       return SV(sort, sort.literal(None))
     if isinstance(v, bool) and isinstance(sort, Opaque) and getattr(sort, 'coerce_bool', False):
